@@ -139,6 +139,11 @@ struct LockProg : Program
             std::lock_guard<igris::syslock> g(l);
             enter_outer(id);
             inside(id, 1);
+            {
+                std::lock_guard<igris::syslock> g2(l); // the same BasicLockable object re-entered by its owner
+                inside(id, -1);
+            }
+            inside(id, 1); // one acquisition is still outstanding
             owner = -1;
         }
         else
@@ -153,8 +158,8 @@ struct LockProg : Program
                 owner = -1;
             }
         }
-        if (syslock_counter() < 0)
-            log.fail(id, "depth", "counter negative after the scope ended");
+        if (syslock_counter() != 0)
+            log.fail(id, "depth", mc::fmt("counter %d after every scope ended: an acquisition was never undone (or undone twice)", syslock_counter()).c_str());
         log.returned[id] = 1;
     }
     void setup() override
@@ -290,7 +295,7 @@ struct WaitProg : Program
     std::atomic<int> b_parked_at_quiescence{-1}, a_back_at_quiescence{-1};
     WaitProg(int v) : variant(v)
     {
-        static const char *nm[] = {"W_race", "W_fifo", "W_prio", "W_all", "W_one_of_two", "W_all_race", "W_early_wake", "W_3w2k"};
+        static const char *nm[] = {"W_race", "W_fifo", "W_prio", "W_all", "W_one_of_two", "W_all_race", "W_early_wake", "W_3w2k", "W_prio_any_nonzero"};
         name = nm[v];
     }
     void waiter(int id, int prio)
@@ -357,8 +362,9 @@ struct WaitProg : Program
                     "waker");
             break;
         case 2:
+        case 8: // the same with a priority value that is not the WAIT_PRIORITY constant: any non-zero value prioritises
             sched::spawn([this] { waiter(0, 0); }, "waiterA");
-            sched::spawn([this] { waiter(1, WAIT_PRIORITY); }, "waiterB_prio");
+            sched::spawn([this] { waiter(1, variant == 2 ? WAIT_PRIORITY : 2); }, "waiterB_prio");
             sched::spawn(
                 [this, both, nonempty] {
                     sched::wait_until(both, "both queued");
@@ -480,6 +486,7 @@ struct WaitProg : Program
                               a_back_at_quiescence.load(), b_parked_at_quiescence.load());
             break;
         case 2:
+        case 8:
             want(1, FUT + 100); // the prioritised waiter is served first
             want(0, -(FUT + 101));
             break;
@@ -952,6 +959,7 @@ MC_INIT
     // five threads: every schedule without preemption (a switch only where the running thread blocks, yields or ends;
     // ~18 000 executions), thorough only - one preemption already costs millions of executions
     add_one(WaitProg(7).name, [] { return new WaitProg(7); }, 0, 0, true);
+    add_prog(WaitProg(8).name, [] { return new WaitProg(8); }, 2, 3);
     add_prog("Q_size", [] { return new QueueSizeProg(); }, 2, 3);
     add_prog("Q_stream", [] { return new QueueStreamProg(); }, 2, 3);
     for (int c = 1; c <= 2; c++)
